@@ -247,6 +247,14 @@ def run(ctx):
         for n in (["1HPX"] if not ctx.thorough() else ["1HPX", "1FTJ-Chain-A", "3SGB"]):
             cases.append((f"{n} [{tag}]", C.test_pdb_text(n), ["-p", pf]))
         cases.append((f"frag-1HPX-A40+30 [{tag}]", C.join(C.chain_lines("1HPX", "A", 40, 30) + [C.TER]), ["-p", pf]))
+    # the optional settings of covalent coupling (determinants shared inside a coupled system, penalised groups kept) on
+    # structures that have such systems: methotrexate ring nitrogens of 4DFR, chains starting at ASP / HIS / CYS
+    for tag in (("shared", "shared+keep") if not ctx.thorough() else ("shared", "shared+keep", "keep-penalised", "ccc+shared+keep")):
+        ov, keeppen = c02.PARAMS[tag]
+        pf = c02.param_file(ov, "c16_" + tag)
+        cases.append((f"4DFR [{tag}]", C.test_pdb_text("4DFR"), ["-p", pf], {"keeppen": keeppen}))
+        for cs_ in coupled_starts[:-1][:(None if ctx.thorough() else 3)]:
+            cases.append((f"{cs_[0]} [{tag}]", cs_[1], ["-p", pf], {"keeppen": keeppen}))
     recs, metas, _ = runbank.run_and_record(ctx, cases)
     texts = {c[0]: c for c in cases}
     ndet = 0
@@ -262,7 +270,17 @@ def run(ctx):
                 ctx.nontriv((m["input"], tuple(m["optargs"])))
     ctx.extra["coulomb_determinants_checked"] = ndet
     ctx.extra["ion_determinants_checked"] = sum(m.get("ion_dets", 0) for m in metas)
-    viol = runbank.validate(ctx, recs, metas, runbank.RUN_INV["C16"])
+    # shared_determinants 1 overwrites, inside a coupled system, every member's determinant from a partner with the largest
+    # one: that is what the setting is for, and it leaves the signs and the bounds intact but not the "equal and opposite"
+    # clause (which the statement makes about the model as configured by default), so that clause is not asked of these runs
+    sh = [("[shared" in m["input"] or "+shared" in m["input"]) for m in metas]
+    viol = runbank.validate(ctx, [r for r, s_ in zip(recs, sh) if not s_], [m for m, s_ in zip(metas, sh) if not s_],
+                            runbank.RUN_INV["C16"])
+    if any(sh):
+        v2 = runbank.validate(ctx, [r for r, s_ in zip(recs, sh) if s_], [m for m, s_ in zip(metas, sh) if s_],
+                              [i for i in runbank.RUN_INV["C16"] if i != "C16_AcidBasePair"], label="runs with shared determinants")
+        for inv, lst in v2.items():
+            viol.setdefault(inv, []).extend(lst)
     for inv, lst in sorted(viol.items()):
         for rec, m in lst:
             ctx.violation(f"run:{inv}:{m['input']}", f"{inv} violated on {m}", {"pdb": texts[m["input"]][1], "optargs": m["optargs"]})
